@@ -35,21 +35,33 @@ def implied(test, edge: str) -> list:
     ``A and B`` false => (not A) or (not B);  ``A or B`` true => A or B; ``not`` flips.
     """
 
+    def disj(parts):
+        acc = [[]]
+        for p in parts:
+            acc = [a + c for a in acc for c in p]
+            if len(acc) > 96:
+                return None
+        return acc
+
     def go(e, pol):
         if isinstance(e, ast.UnaryOp) and isinstance(e.op, ast.Not):
             return go(e.operand, not pol)
+        if isinstance(e, ast.Constant) and isinstance(e.value, (bool, type(None))):
+            # TRUE = no clause, FALSE = one empty clause
+            return [] if bool(e.value) == pol else [[]]
         if isinstance(e, ast.BoolOp):
             conj = (isinstance(e.op, ast.And) and pol) or (isinstance(e.op, ast.Or) and not pol)
             parts = [go(v, pol) for v in e.values]
             if conj:
                 return [c for p in parts for c in p]
-            # disjunction of CNFs: distribute (sizes are tiny)
-            acc = [[]]
-            for p in parts:
-                acc = [a + c for a in acc for c in p]
-                if len(acc) > 64:
-                    return [[(e, pol)]]
-            return acc
+            d = disj(parts)
+            return d if d is not None else [[(e, pol)]]
+        if isinstance(e, ast.IfExp):
+            # (C and A) or (not C and B)
+            left = go(e.test, True) + go(e.body, pol)
+            right = go(e.test, False) + go(e.orelse, pol)
+            d = disj([left, right])
+            return d if d is not None else [[(e, pol)]]
         return [[(e, pol)]]
 
     return go(test, edge == "t")
@@ -61,20 +73,93 @@ def strip_await(e):
     return e
 
 
+class _Expand(ast.NodeTransformer):
+    def __init__(self, env):
+        self.env = env
+
+    def visit_Name(self, node):
+        if isinstance(node.ctx, ast.Load) and node.id in self.env:
+            from .core import clone
+
+            return ast.copy_location(clone(self.env[node.id]), node)
+        return node
+
+    def visit_Lambda(self, node):
+        return node
+
+
+def local_aliases(fn) -> dict:
+    """local names bound exactly once in ``fn`` by a plain assignment -> the assigned expression
+    (named temporaries: `limiter = self.rate_limiter`, `allowed = await can_do(…)`)"""
+    cached = getattr(fn, "_aliases", None)
+    if cached is not None:
+        return cached
+    counts: dict = {}
+    vals: dict = {}
+    params = {a.arg for a in fn.args.args + fn.args.kwonlyargs}
+    for n in walk_no_nested(fn):
+        if n is fn:
+            continue
+        if isinstance(n, (ast.stmt, ast.ExceptHandler)):
+            for nm in stmt_assigns(n):
+                counts[nm] = counts.get(nm, 0) + 1
+            if isinstance(n, ast.Assign) and len(n.targets) == 1 and isinstance(n.targets[0], ast.Name):
+                vals[n.targets[0].id] = n.value
+    def _ctor(v):
+        v = strip_await(v)
+        return isinstance(v, ast.Call) and dotted(v.func).split(".")[-1][:1].isupper()
+
+    # constructor results are objects with identity (the admitted Event, a Subscription): never read through them
+    env = {k: strip_await(v) for k, v in vals.items() if counts.get(k) == 1 and k not in params and not isinstance(v, (ast.Constant,)) and not _ctor(v)}
+    # close the environment (bounded)
+    for _ in range(3):
+        changed = False
+        for k, v in list(env.items()):
+            if any(isinstance(x, ast.Name) and x.id in env and x.id != k for x in ast.walk(v)):
+                from .core import clone
+
+                nv = _Expand({a: b for a, b in env.items() if a != k}).visit(clone(v))
+                env[k] = nv
+                changed = True
+        if not changed:
+            break
+    try:
+        fn._aliases = env
+    except Exception:
+        pass
+    return env
+
+
+def expand_aliases(fn, expr):
+    env = local_aliases(fn)
+    if not env or not any(isinstance(x, ast.Name) and x.id in env for x in ast.walk(expr)):
+        return expr
+    from .core import clone
+
+    return _Expand(env).visit(clone(expr))
+
+
 def test_edges(cfg: CFG, atom_pred: Callable[[ast.AST, bool], bool]) -> dict:
     """node -> set of branch kinds on which the gate is known to have passed: some clause
-    of what the edge implies consists only of literals satisfying ``atom_pred(expr, polarity)``."""
+    of what the edge implies consists only of literals satisfying ``atom_pred(expr, polarity)``.
+    Named temporaries bound once are read through (the test is expanded before it is analysed)."""
     out: dict = {}
+    fn = cfg.fn
     for n, d in cfg.g.nodes(data=True):
         s = d["ast"]
         if (d["kind"] == "test" and isinstance(s, ast.If)) or (
             d["kind"] == "loop" and isinstance(s, ast.While)
         ):
-            for edge in ("t", "f"):
-                for clause in implied(s.test, edge):
-                    if clause and all(atom_pred(strip_await(x), pol) for x, pol in clause):
-                        out.setdefault(n, set()).add(edge)
-                        break
+            tests = [s.test]
+            ex = expand_aliases(fn, s.test)
+            if ex is not s.test:
+                tests.append(ex)
+            for test in tests:
+                for edge in ("t", "f"):
+                    for clause in implied(test, edge):
+                        if clause and all(atom_pred(strip_await(x), pol) for x, pol in clause):
+                            out.setdefault(n, set()).add(edge)
+                            break
     return out
 
 
@@ -281,3 +366,40 @@ def const_str_list(node) -> Optional[list]:
     ):
         return [e.value for e in node.elts]
     return None
+
+
+def live_matcher(program: Program):
+    """(function, query variable, event variable, loop-or-None) holding the per-filter body of the in-memory matcher:
+    BaseSubscription.check_event itself when it loops over its filters, or the helper it maps over them."""
+    ce = program.func("nostr_relay.storage.base:BaseSubscription.check_event")
+    params = [a.arg for a in ce.args.args]
+    ev, flt = params[1], params[2]
+    for l in walk_no_nested(ce):
+        if isinstance(l, ast.For) and dotted(l.iter) == flt and isinstance(l.target, ast.Name):
+            return ce, l.target.id, ev, l
+    # any(self._helper(event, q) for q in filters)  /  [ ... ]
+    for c in ast.walk(ce):
+        if isinstance(c, (ast.GeneratorExp, ast.ListComp)) and len(c.generators) == 1 and dotted(c.generators[0].iter) == flt and isinstance(c.generators[0].target, ast.Name):
+            q = c.generators[0].target.id
+            call = c.elt
+            if isinstance(call, ast.Call):
+                callee = None
+                if isinstance(call.func, ast.Attribute) and isinstance(call.func.value, ast.Name) and call.func.value.id in ("self", "cls", "BaseSubscription"):
+                    ci = program.cls("nostr_relay.storage.base:BaseSubscription")
+                    callee = ci.methods.get(call.func.attr)
+                elif isinstance(call.func, ast.Name):
+                    callee = program.func_opt(f"nostr_relay.storage.base:{call.func.id}")
+                if callee is not None:
+                    cparams = [a.arg for a in callee.args.args]
+                    static = any(dotted(d) == "staticmethod" for d in callee.decorator_list)
+                    if not static and cparams and cparams[0] in ("self", "cls"):
+                        cparams = cparams[1:]
+                    qv = evv = None
+                    for pn, a in zip(cparams, call.args):
+                        if dotted(a) == q:
+                            qv = pn
+                        if dotted(a) == ev:
+                            evv = pn
+                    if qv and evv:
+                        return callee, qv, evv, None
+    raise AnalysisError("the in-memory matcher (check_event) neither loops over its filters nor maps a helper over them")
